@@ -78,11 +78,135 @@ def _param_key(node):
     return None
 
 
+class _Subst(ast.NodeTransformer):
+    """replace loads of plain names by given expressions (semantics-preserving renaming / alias resolution)"""
+    def __init__(self, mapping):
+        self.mapping = mapping
+
+    def visit_Name(self, node):
+        if isinstance(node.ctx, ast.Load) and node.id in self.mapping:
+            import copy as _c
+            return ast.copy_location(_c.deepcopy(self.mapping[node.id]), node)
+        return node
+
+
+def _shape_aliases(fn):
+    """`nx, ny = shape` (or `= data.shape`): names that are nothing but shape[0], shape[1]"""
+    al = {}
+    for n in ast.walk(fn):
+        if isinstance(n, ast.Assign) and len(n.targets) == 1 and isinstance(n.targets[0], ast.Tuple) \
+                and len(n.targets[0].elts) == 2 and all(isinstance(e, ast.Name) for e in n.targets[0].elts) \
+                and ast.unparse(n.value) in ('shape', 'data.shape'):
+            a, b = (e.id for e in n.targets[0].elts)
+            if a not in ('xmin', 'ymin', 'xmax', 'ymax') and b not in ('xmin', 'ymin', 'xmax', 'ymax'):
+                al[a] = ast.parse('shape[0]', mode='eval').body
+                al[b] = ast.parse('shape[1]', mode='eval').body
+    # only if they are assigned exactly once in the function (a true alias)
+    for name in list(al):
+        cnt = sum(1 for n in ast.walk(fn) if isinstance(n, ast.Name) and n.id == name and isinstance(n.ctx, ast.Store))
+        if cnt != 1:
+            al.pop(name)
+    return al
+
+
+def _unroll_literal_loops(stmts):
+    """`for a, b in ((e1, f1), (e2, f2)): body` -> body[a:=e1, b:=f1]; body[a:=e2, b:=f2]  (loops over literal tuples
+    only; loop variables must not be re-assigned in the body); other statements are kept, recursively"""
+    import copy as _c
+    out = []
+    for st in stmts:
+        if isinstance(st, ast.For) and isinstance(st.iter, (ast.Tuple, ast.List)) and not st.orelse:
+            tg = st.target
+            names = [tg.id] if isinstance(tg, ast.Name) else \
+                ([e.id for e in tg.elts] if isinstance(tg, ast.Tuple) and all(isinstance(e, ast.Name) for e in tg.elts) else None)
+            stores = {n.id for b in st.body for n in ast.walk(b) if isinstance(n, ast.Name) and isinstance(n.ctx, ast.Store)}
+            ok = names is not None and not (set(names) & stores)
+            items = []
+            for it in st.iter.elts:
+                vals = [it] if len(names or []) == 1 else (list(it.elts) if isinstance(it, (ast.Tuple, ast.List)) else None)
+                if vals is None or len(vals) != len(names or []):
+                    ok = False
+                items.append(vals)
+            if ok:
+                for vals in items:
+                    body = [_Subst(dict(zip(names, vals))).visit(_c.deepcopy(b)) for b in st.body]
+                    out += _unroll_literal_loops(body)
+                continue
+        if isinstance(st, (ast.For, ast.While)):
+            st = _c.copy(st)
+            st.body = _unroll_literal_loops(st.body)
+        out.append(st)
+    return out
+
+
+def _resolve_param_aliases(stmts):
+    """`par = params[<key>]` followed by `par.min -= …`: rewrite uses of `par` to `params[<key>]` (one alias at a time,
+    in statement order; the alias statement itself is dropped)"""
+    import copy as _c
+    out, alias = [], {}
+    for st in stmts:
+        if isinstance(st, ast.Assign) and len(st.targets) == 1 and isinstance(st.targets[0], ast.Name) \
+                and isinstance(st.value, ast.Subscript) and isinstance(st.value.value, ast.Name) and st.value.value.id == 'params':
+            alias[st.targets[0].id] = st.value
+            continue
+        if isinstance(st, (ast.For, ast.While)):
+            st = _c.copy(st)
+            st.body = _resolve_param_aliases(st.body)
+            out.append(st)
+            continue
+        out.append(_Subst(alias).visit(_c.deepcopy(st)) if alias else st)
+    return out
+
+
+def _str_key(node, keys):
+    """the parameter a `params[...]` subscript addresses: the only string constant in its key that names one of `keys`
+    (covers  prefix + "xo",  "c{0}_{1}".format(k, "xo"),  "c%d_xo" % k)"""
+    if not isinstance(node, ast.Subscript):
+        return None
+    hits = set()
+    for c in ast.walk(node.slice):
+        if isinstance(c, ast.Constant) and isinstance(c.value, str):
+            for k in keys:
+                if c.value == k or c.value.endswith('_' + k):
+                    hits.add(k)
+    return hits.pop() if len(hits) == 1 else None
+
+
+def _bind_call(call, fn):
+    """{parameter name of fn: argument expression} for a call `self.fn(...)` / `fn(...)`; None if not resolvable"""
+    params = [a.arg for a in fn.args.args]
+    if params and params[0] in ('self', 'cls') and not any(isinstance(d, ast.Name) and d.id == 'staticmethod'
+                                                            for d in fn.decorator_list):
+        params = params[1:]
+    if any(isinstance(a, ast.Starred) for a in call.args) or any(k.arg is None for k in call.keywords):
+        return None
+    if len(call.args) > len(params):
+        return None
+    b = dict(zip(params, call.args))
+    for k in call.keywords:
+        if k.arg not in params or k.arg in b:
+            return None
+        b[k.arg] = k.value
+    return b
+
+
 def _slice(repo):
     src = open(os.path.join(repo, 'AegeanTools', 'source_finder.py')).read()
     tree = ast.parse(src)
     out = []
     refit = _fn(tree, '_refit_islands')
+    # normal form of the function body used by the slices below: loops over literal tuples unrolled, `par = params[k]`
+    # aliases resolved, names that merely alias shape[0] / shape[1] replaced
+    import copy as _copy
+    refit = _copy.deepcopy(refit)
+    try:
+        refit.body = _resolve_param_aliases(_unroll_literal_loops(refit.body))
+        al = _shape_aliases(refit)
+        if al:
+            refit = _Subst(al).visit(refit)
+        ast.fix_missing_locations(refit)
+    except Exception:  # noqa: BLE001 - keep the function as it is
+        refit = _fn(tree, '_refit_islands')
 
     # 1. the four bound updates
     try:
@@ -173,8 +297,8 @@ def _slice(repo):
         seen = set()
         for n in ast.walk(refit):
             if isinstance(n, ast.AugAssign) and isinstance(n.op, ast.Sub) and isinstance(n.target, ast.Attribute) \
-                    and n.target.attr in ('value', 'min', 'max') and _param_key(n.target.value) in ('xo', 'yo'):
-                key = _param_key(n.target.value)
+                    and n.target.attr in ('value', 'min', 'max') and _str_key(n.target.value, ('xo', 'yo')) in ('xo', 'yo'):
+                key = _str_key(n.target.value, ('xo', 'yo'))
                 tag = f"sub_{key}_{n.target.attr}"
                 if tag in seen:
                     continue
@@ -189,20 +313,56 @@ def _slice(repo):
     except Exception:  # noqa: BLE001
         pass
 
-    # 4. vary= keywords
-    try:
+    # 4. vary= keywords: `params.add(<key>, …, vary=<expr>)` in _refit_islands itself, or in a helper it calls with the
+    #    stage passed through unchanged (then the helper's plain-name temporaries are carried along)
+    def vary_of(fn):
         body, seen = [], set()
-        for n in ast.walk(refit):
+        for n in ast.walk(fn):
             if isinstance(n, ast.Call) and isinstance(n.func, ast.Attribute) and n.func.attr == 'add' \
-                    and isinstance(n.func.value, ast.Name) and n.func.value.id == 'params' and n.args \
-                    and isinstance(n.args[0], ast.BinOp) and isinstance(n.args[0].right, ast.Constant):
-                key = n.args[0].right.value
+                    and isinstance(n.func.value, ast.Name) and n.args:
+                hits = {k for c in ast.walk(n.args[0]) if isinstance(c, ast.Constant) and isinstance(c.value, str)
+                        for k in ('amp', 'xo', 'yo', 'sx', 'sy', 'theta', 'flags') if c.value == k or c.value.endswith('_' + k)}
                 vary = [k.value for k in n.keywords if k.arg == 'vary']
-                if key in seen or not vary:
+                if len(hits) != 1 or not vary:
+                    continue
+                key = hits.pop()
+                if key in seen:
                     continue
                 seen.add(key)
                 body.append(_assign(f"vary_{key}", vary[0]))
-        assert seen >= {'amp', 'xo', 'yo', 'sx', 'sy', 'theta', 'flags'}
+        return body, seen
+    try:
+        body, seen = vary_of(refit)
+        if not seen >= {'amp', 'xo', 'yo', 'sx', 'sy', 'theta', 'flags'}:
+            body = None
+            for call in ast.walk(refit):
+                if isinstance(call, ast.Call) and isinstance(call.func, (ast.Attribute, ast.Name)):
+                    name = call.func.attr if isinstance(call.func, ast.Attribute) else call.func.id
+                    helpers = [f for f in ast.walk(tree) if isinstance(f, ast.FunctionDef) and f.name == name
+                               and name not in ('_refit_islands', 'add')]
+                    if not helpers:
+                        continue
+                    b2, seen2 = vary_of(helpers[0])
+                    bind = _bind_call(call, helpers[0])
+                    if seen2 >= {'amp', 'xo', 'yo', 'sx', 'sy', 'theta', 'flags'} and bind is not None:
+                        # every helper parameter the vary expressions (and their temporaries) read must be `stage` itself
+                        temps = [st for st in helpers[0].body if isinstance(st, ast.Assign) and len(st.targets) == 1
+                                 and isinstance(st.targets[0], ast.Name)]
+                        tnames = {t.targets[0].id for t in temps}
+                        used = {m.id for st in b2 for m in ast.walk(st.value) if isinstance(m, ast.Name)}
+                        need = set()
+                        keep = []
+                        for t in reversed(temps):
+                            if t.targets[0].id in used | need:
+                                keep.insert(0, t)
+                                need |= {m.id for m in ast.walk(t.value) if isinstance(m, ast.Name)}
+                        free = (used | need) - tnames
+                        pmap = {p: bind.get(p) for p in free}
+                        if all(isinstance(v, ast.Name) and v.id == 'stage' for v in pmap.values()):
+                            ren = _Subst({p: ast.Name(id='stage', ctx=ast.Load()) for p in pmap})
+                            body = [ren.visit(st) for st in keep + b2]
+                            break
+        assert body
         out.append(_mkfun('c05_vary', ['stage'], body))
     except Exception:  # noqa: BLE001
         pass
